@@ -365,16 +365,19 @@ Proof. intro H. unfold w_out. apply merge_nodup, collect_nodup, H. Qed.
 (* ====================================================================================== *)
 (* the task's local bind map                                                               *)
 (* ====================================================================================== *)
-(* channel [c] writes key [k] *)
+(* channel [c] writes key [k]: only channels without a target of their own are registered *)
 Definition sets_key (c : inbound) (k : str) : Prop :=
-  k = i_name c \/ (i_global c <> [] /\ k = alias_key (i_global c)).
+  i_target c = [] /\ (k = i_name c \/ (i_global c <> [] /\ k = alias_key (i_global c))).
 
 Lemma nonempty_true {A} (l : list A) : nonempty l = true <-> l <> [].
 Proof. destruct l; cbn; split; congruence. Qed.
 
+Lemma nonempty_false {A} (l : list A) : nonempty l = false <-> l = [].
+Proof. destruct l; cbn; split; congruence. Qed.
+
 Lemma local_step_sets c a m k : sets_key c k -> assoc k (local_step c a m) = Some (mk_ep c a).
 Proof.
-  intros [H|[H1 H2]]; unfold local_step; subst.
+  intros [T [H|[H1 H2]]]; unfold local_step; rewrite T; cbn [nonempty]; subst.
   - destruct (nonempty (i_global c)).
     + destruct (str_eqb (i_name c) (alias_key (i_global c))) eqn:E.
       * apply str_eqb_spec in E. rewrite E. apply assoc_set_same.
@@ -385,24 +388,26 @@ Qed.
 
 Lemma local_step_other c a m k : ~ sets_key c k -> assoc k (local_step c a m) = assoc k m.
 Proof.
-  intro H. unfold local_step.
-  assert (k <> i_name c) as N1. { intro E. apply H. left. exact E. }
+  intro H. unfold local_step. destruct (nonempty (i_target c)) eqn:T; [reflexivity|].
+  apply nonempty_false in T.
+  assert (k <> i_name c) as N1. { intro E. apply H. split; [exact T|]. left. exact E. }
   destruct (nonempty (i_global c)) eqn:G.
   - assert (k <> alias_key (i_global c)) as N2.
-    { intro E. apply H. right. split; [apply nonempty_true, G|exact E]. }
+    { intro E. apply H. split; [exact T|]. right. split; [apply nonempty_true, G|exact E]. }
     rewrite !assoc_set_other by congruence. reflexivity.
   - rewrite assoc_set_other by congruence. reflexivity.
 Qed.
 
 Lemma sets_key_dec c k : sets_key c k \/ ~ sets_key c k.
 Proof.
-  unfold sets_key. destruct (str_eqb k (i_name c)) eqn:E1.
-  - left. left. apply str_eqb_spec. exact E1.
-  - apply str_eqb_false in E1. destruct (i_global c) as [|x g] eqn:G.
-    + right. intros [H|[H _]]; congruence.
-    + destruct (str_eqb k (alias_key (x :: g))) eqn:E2.
-      * left. right. split; [congruence|apply str_eqb_spec; exact E2].
-      * apply str_eqb_false in E2. right. intros [H|[_ H]]; congruence.
+  unfold sets_key. destruct (i_target c) as [|x t] eqn:T; [|right; intros [H _]; discriminate].
+  destruct (str_eqb k (i_name c)) eqn:E1.
+  - left. split; [reflexivity|]. left. apply str_eqb_spec. exact E1.
+  - apply str_eqb_false in E1. destruct (i_global c) as [|y g] eqn:G.
+    + right. intros [_ [H|[H _]]]; congruence.
+    + destruct (str_eqb k (alias_key (y :: g))) eqn:E2.
+      * left. split; [reflexivity|]. right. split; [congruence|apply str_eqb_spec; exact E2].
+      * apply str_eqb_false in E2. right. intros [_ [H|[_ H]]]; congruence.
 Qed.
 
 Lemma local_from_other : forall chs j al m k,
@@ -456,7 +461,8 @@ Qed.
 
 Lemma local_step_nodup c a m : NoDup (map fst m) -> NoDup (map fst (local_step c a m)).
 Proof.
-  intro ND. unfold local_step. destruct (nonempty (i_global c)); repeat apply set_nodup; exact ND.
+  intro ND. unfold local_step. destruct (nonempty (i_target c)); [exact ND|].
+  destruct (nonempty (i_global c)); repeat apply set_nodup; exact ND.
 Qed.
 
 Lemma local_from_nodup : forall chs j al m, NoDup (map fst m) -> NoDup (map fst (local_from chs j al m)).
@@ -476,34 +482,35 @@ Proof.
   - destruct (IH i H) as (pre & post & E & L). exists (x :: pre), post. subst. split; reflexivity.
 Qed.
 
-(* with unique, alias-free names every inbound channel has its own entry under its name *)
+(* with unique, alias-free names every inbound channel without a target of its own has its own
+   entry under its name *)
 Lemma local_bindmap_name chs al i c :
   NoDup (map i_name chs) -> (forall c', In c' chs -> is_alias_key (i_name c') = false) ->
-  nth_error chs i = Some c ->
+  nth_error chs i = Some c -> i_target c = [] ->
   assoc (i_name c) (local_bindmap chs al) = Some (mk_ep c (al i)).
 Proof.
-  intros ND PL H. destruct (nth_error_split _ _ _ H) as (pre & post & E & L). subst chs.
+  intros ND PL H T. destruct (nth_error_split _ _ _ H) as (pre & post & E & L). subst chs.
   unfold local_bindmap. rewrite (local_from_last pre c post 0 al [] (i_name c)).
   - cbn. rewrite L. reflexivity.
-  - left. reflexivity.
-  - intros c' Hc' [S|[_ S]].
+  - split; [exact T|]. left. reflexivity.
+  - intros c' Hc' [_ [S|[_ S]]].
     + rewrite map_app in ND. cbn in ND. apply NoDup_remove_2 in ND. apply ND.
       apply in_or_app. right. rewrite S. apply in_map. exact Hc'.
     + assert (is_alias_key (i_name c) = false) as P. { apply PL. apply in_or_app. right. left. reflexivity. }
       rewrite S, alias_key_is_alias in P. discriminate.
 Qed.
 
-(* an alias entry is the endpoint of the last channel that claims the alias *)
+(* an alias entry is the endpoint of the last registered channel that claims the alias *)
 Lemma local_bindmap_alias pre c post al :
   (forall c', In c' (pre ++ c :: post) -> is_alias_key (i_name c') = false) ->
-  i_global c <> [] -> (forall c', In c' post -> i_global c' <> i_global c) ->
+  i_target c = [] -> i_global c <> [] -> (forall c', In c' post -> i_global c' <> i_global c) ->
   assoc (alias_key (i_global c)) (local_bindmap (pre ++ c :: post) al) = Some (mk_ep c (al (length pre))).
 Proof.
-  intros PL G Hp. unfold local_bindmap.
+  intros PL T G Hp. unfold local_bindmap.
   rewrite (local_from_last pre c post 0 al [] (alias_key (i_global c))).
   - reflexivity.
-  - right. split; [exact G|reflexivity].
-  - intros c' Hc' [S|[_ S]].
+  - split; [exact T|]. right. split; [exact G|reflexivity].
+  - intros c' Hc' [_ [S|[_ S]]].
     + assert (is_alias_key (i_name c') = false) as P. { apply PL. apply in_or_app. right. right. exact Hc'. }
       rewrite <- S, alias_key_is_alias in P. discriminate.
     + apply alias_key_inj in S. apply (Hp c' Hc'). congruence.
@@ -658,7 +665,7 @@ Lemma env_from_app : forall l1 l2 bm,
   match env_from l1 bm with None => None | Some bm1 => env_from l2 bm1 end.
 Proof.
   induction l1 as [|t l1 IH]; intros l2 bm; cbn [app env_from]; [reflexivity|].
-  destruct (env_add (t_path t) (t_host t) (t_local t) bm); [apply IH|reflexivity].
+  destruct (alias_dup (t_in t)); [reflexivity|]. destruct (env_add (t_path t) (t_host t) (t_local t) bm); [apply IH|reflexivity].
 Qed.
 
 Lemma env_from_split pre b post bm0 bm :
@@ -668,7 +675,7 @@ Lemma env_from_split pre b post bm0 bm :
                   env_from post bm2 = Some bm.
 Proof.
   rewrite env_from_app. destruct (env_from pre bm0) as [bm1|] eqn:E1; [|discriminate].
-  cbn [env_from]. destruct (env_add (t_path b) (t_host b) (t_local b) bm1) as [bm2|] eqn:E2; [|discriminate].
+  cbn [env_from]. destruct (alias_dup (t_in b)) eqn:AD; [discriminate|]. destruct (env_add (t_path b) (t_host b) (t_local b) bm1) as [bm2|] eqn:E2; [|discriminate].
   intro H. exists bm1, bm2. split; [reflexivity|]. split; [exact E2|exact H].
 Qed.
 
@@ -681,7 +688,7 @@ Lemma env_from_other : forall tasks bm bm' k,
 Proof.
   induction tasks as [|t r IH]; intros bm bm' k H Hn; cbn [env_from] in H.
   - inversion H. reflexivity.
-  - destruct (env_add (t_path t) (t_host t) (t_local t) bm) as [bm1|] eqn:E; [|discriminate].
+  - destruct (alias_dup (t_in t)) eqn:AD; [discriminate|]. destruct (env_add (t_path t) (t_host t) (t_local t) bm) as [bm1|] eqn:E; [|discriminate].
     rewrite (IH _ _ _ H) by (intros t' Ht'; apply Hn; right; exact Ht').
     apply (env_add_other _ _ _ _ _ _ E). intros n ep Hi X.
     apply (Hn t (or_introl eq_refl)). exists n, ep. split; assumption.
@@ -693,7 +700,7 @@ Lemma env_from_subst : forall tasks bm bm',
 Proof.
   induction tasks as [|t r IH]; intros bm bm' Hh Hs H; cbn [env_from] in H.
   - inversion H; subst. exact Hs.
-  - destruct (env_add (t_path t) (t_host t) (t_local t) bm) as [bm1|] eqn:E; [|discriminate].
+  - destruct (alias_dup (t_in t)) eqn:AD; [discriminate|]. destruct (env_add (t_path t) (t_host t) (t_local t) bm) as [bm1|] eqn:E; [|discriminate].
     apply (IH bm1 bm'); [intros t' Ht'; apply Hh; right; exact Ht'| |exact H].
     apply (env_add_subst _ _ _ _ _ (Hh t (or_introl eq_refl)) Hs E).
 Qed.
@@ -704,7 +711,7 @@ Lemma env_from_alias_stable : forall tasks bm bm' k ex,
 Proof.
   induction tasks as [|t r IH]; intros bm bm' k ex Hp A E H; cbn [env_from] in H.
   - inversion H; subst. exact E.
-  - destruct (env_add (t_path t) (t_host t) (t_local t) bm) as [bm1|] eqn:E1; [|discriminate].
+  - destruct (alias_dup (t_in t)) eqn:AD; [discriminate|]. destruct (env_add (t_path t) (t_host t) (t_local t) bm) as [bm1|] eqn:E1; [|discriminate].
     apply (IH bm1 bm' k ex); [intros t' Ht'; apply Hp; right; exact Ht'|exact A| |exact H].
     apply (env_add_alias_stable _ _ _ _ _ _ _ (Hp t (or_introl eq_refl)) A E E1).
 Qed.
@@ -860,30 +867,44 @@ Proof.
   - apply in_rev in HI. exact HI.
 Qed.
 
-Lemma in_writes_keys local ins x : In x (map fst (in_writes local ins)) -> In x (map i_name ins).
+Lemma in_writes_keys : forall local ins w, in_writes local ins = Some w -> map fst w = map i_name ins.
 Proof.
-  unfold in_writes. induction ins as [|i ins IH]; cbn [flat_map map]; [intros []|].
-  rewrite map_app. intro H. apply in_app_or in H. destruct H as [H|H].
-  - destruct (inbound_props local i); cbn in H; [|contradiction].
-    destruct H as [H|[]]. left. exact H.
-  - right. apply IH, H.
+  induction ins as [|i r IH]; intros w H; cbn [in_writes] in H.
+  - inversion H. reflexivity.
+  - destruct (inbound_props local i) as [p|]; [|discriminate].
+    destruct (in_writes local r) as [w'|]; [|discriminate].
+    inversion H; subst. cbn. f_equal. apply IH. reflexivity.
 Qed.
 
-Lemma in_writes_nodup local ins : NoDup (map i_name ins) -> NoDup (map fst (in_writes local ins)).
+Lemma in_writes_In : forall local ins w i,
+  in_writes local ins = Some w -> In i ins ->
+  exists p, inbound_props local i = Some p /\ In (i_name i, p) w.
 Proof.
-  unfold in_writes. induction ins as [|i ins IH]; cbn [flat_map map]; intro ND; [constructor|].
-  inversion ND as [|x xs Hnot ND']; subst. rewrite map_app. apply nodup_app_intro.
-  - destruct (inbound_props local i); cbn; [constructor; [intros []|constructor]|constructor].
-  - apply IH, ND'.
-  - intros x Hx Hy. destruct (inbound_props local i); cbn in Hx; [|contradiction].
-    destruct Hx as [Hx|[]]. subst x. apply Hnot. apply (in_writes_keys local ins). exact Hy.
+  induction ins as [|i' r IH]; intros w i H HI; [contradiction|]. cbn [in_writes] in H.
+  destruct (inbound_props local i') as [p|] eqn:P; [|discriminate].
+  destruct (in_writes local r) as [w'|] eqn:W; [|discriminate].
+  inversion H; subst. destruct HI as [HI|HI].
+  - subst. exists p. split; [exact P|left; reflexivity].
+  - destruct (IH w' i eq_refl HI) as (p' & P' & I'). exists p'. split; [exact P'|right; exact I'].
 Qed.
 
-Lemma in_writes_In local ins i p :
-  In i ins -> inbound_props local i = Some p -> In (i_name i, p) (in_writes local ins).
+Lemma in_writes_none : forall local ins i,
+  In i ins -> inbound_props local i = None -> in_writes local ins = None.
 Proof.
-  intros HI HP. unfold in_writes. apply in_flat_map. exists i. split; [exact HI|].
-  rewrite HP. left. reflexivity.
+  induction ins as [|i' r IH]; intros i HI HP; [contradiction|]. cbn [in_writes].
+  destruct HI as [HI|HI].
+  - subst. rewrite HP. reflexivity.
+  - rewrite (IH i HI HP). destruct (inbound_props local i'); reflexivity.
+Qed.
+
+Lemma in_writes_none_inv : forall local ins,
+  in_writes local ins = None -> exists i, In i ins /\ inbound_props local i = None.
+Proof.
+  induction ins as [|i r IH]; intro H; cbn [in_writes] in H; [discriminate|].
+  destruct (inbound_props local i) as [p|] eqn:P.
+  - destruct (in_writes local r) as [w|] eqn:W; [discriminate|].
+    destruct (IH eq_refl) as (i' & Hi' & P'). exists i'. split; [right; exact Hi'|exact P'].
+  - exists i. split; [left; reflexivity|exact P].
 Qed.
 
 Lemma out_writes_keys : forall bm outs w, out_writes bm outs = Some w -> map fst w = map o_name outs.
@@ -919,17 +940,13 @@ Qed.
 Lemma task_props_nodup bm t pr :
   t_chans t = true -> NoDup (names_of t) -> task_props bm t = Some pr ->
   NoDup (map fst pr) /\
-  exists w, out_writes bm (t_out t) = Some w /\ pr = in_writes (t_local t) (t_in t) ++ w.
+  exists wi w, in_writes (t_local t) (t_in t) = Some wi /\ out_writes bm (t_out t) = Some w /\ pr = wi ++ w.
 Proof.
   intros C ND H. unfold task_props in H. rewrite C in H.
+  destruct (in_writes (t_local t) (t_in t)) as [wi|] eqn:Wi; [|discriminate].
   destruct (out_writes bm (t_out t)) as [w|] eqn:W; [|discriminate]. inversion H; subst.
-  split; [|exists w; split; reflexivity].
-  unfold names_of in ND. apply nodup_app_elim in ND. destruct ND as (N1 & N2 & N3).
-  rewrite map_app. apply nodup_app_intro.
-  - apply in_writes_nodup, N1.
-  - rewrite (out_writes_keys _ _ _ W). exact N2.
-  - intros x Hx Hy. apply in_writes_keys in Hx. rewrite (out_writes_keys _ _ _ W) in Hy.
-    apply (N3 x Hx Hy).
+  split; [|exists wi, w; repeat split; reflexivity].
+  unfold names_of in ND. rewrite map_app, (in_writes_keys _ _ _ Wi), (out_writes_keys _ _ _ W). exact ND.
 Qed.
 
 Lemma all_props_nth : forall bm tasks ps j t,
@@ -977,386 +994,24 @@ Lemma given_outbound bm t pr o :
   t_chans t = true -> NoDup (names_of t) -> task_props bm t = Some pr -> In o (t_out t) ->
   exists p, outbound_props bm o = Some p /\ given (o_name o) pr = Some p.
 Proof.
-  intros C ND H HI. destruct (task_props_nodup _ _ _ C ND H) as (NDp & w & W & ->).
+  intros C ND H HI. destruct (task_props_nodup _ _ _ C ND H) as (NDp & wi & w & Wi & W & ->).
   destruct (out_writes_In _ _ _ _ W HI) as (p & P & I). exists p. split; [exact P|].
   apply given_nodup; [exact NDp|]. apply in_or_app. right. exact I.
 Qed.
 
-Lemma given_inbound bm t pr c p :
+(* every inbound channel of a configured task is told what Inbound.ToFMQMap answers on the
+   task's local map - and it does answer *)
+Lemma given_inbound bm t pr c :
   t_chans t = true -> NoDup (names_of t) -> task_props bm t = Some pr -> In c (t_in t) ->
-  inbound_props (t_local t) c = Some p -> given (i_name c) pr = Some p.
+  exists p, inbound_props (t_local t) c = Some p /\ given (i_name c) pr = Some p.
 Proof.
-  intros C ND H HI HP. destruct (task_props_nodup _ _ _ C ND H) as (NDp & w & W & ->).
-  apply given_nodup; [exact NDp|]. apply in_or_app. left. apply in_writes_In; assumption.
-Qed.
-
-(* an inbound channel whose declaration the device interface refuses is told nothing *)
-Lemma given_inbound_none bm t pr c :
-  t_chans t = true -> NoDup (names_of t) -> task_props bm t = Some pr -> In c (t_in t) ->
-  inbound_props (t_local t) c = None -> given (i_name c) pr = None.
-Proof.
-  intros C ND H HI HP. destruct (task_props_nodup _ _ _ C ND H) as (NDp & w & W & ->).
-  unfold given. apply assoc_None. rewrite map_rev. intro X. apply in_rev in X.
-  rewrite map_app in X. apply in_app_or in X.
-  unfold names_of in ND. apply nodup_app_elim in ND. destruct ND as (N1 & N2 & N3).
-  destruct X as [X|X].
-  - (* the only declaration with this name is c itself, and it produced nothing *)
-    clear - N1 HI HP X. revert N1 HI X. unfold in_writes.
-    induction (t_in t) as [|i ins IH]; cbn [flat_map map]; intros N1 HI X; [contradiction|].
-    inversion N1 as [|x xs Hnot N1']; subst. rewrite map_app in X. apply in_app_or in X.
-    destruct HI as [HI|HI].
-    + subst i. rewrite HP in X. destruct X as [X|X]; [contradiction|].
-      apply Hnot. apply (in_writes_keys (t_local t) ins). exact X.
-    + destruct X as [X|X]; [|apply (IH N1' HI X)].
-      destruct (inbound_props (t_local t) i); cbn in X; [|contradiction].
-      destruct X as [X|[]]. apply Hnot. rewrite X. apply in_map. exact HI.
-  - rewrite (out_writes_keys _ _ _ W) in X. apply (N3 (i_name c)); [apply in_map; exact HI|exact X].
+  intros C ND H HI. destruct (task_props_nodup _ _ _ C ND H) as (NDp & wi & w & Wi & W & ->).
+  destruct (in_writes_In _ _ _ _ Wi HI) as (p & P & I). exists p. split; [exact P|].
+  apply given_nodup; [exact NDp|]. apply in_or_app. left. exact I.
 Qed.
 
 (* ====================================================================================== *)
-(* the property                                                                            *)
-(* ====================================================================================== *)
-Lemma alias_not_explicit g : is_explicit (alias_key g) = false.
-Proof. reflexivity. Qed.
-
-(* connect side, target "path:name" *)
-Lemma connect_matches_bind_path tasks ps jt t pr b i c o :
-  wf_env tasks -> configure tasks = Some ps ->
-  In b tasks -> names_ok b -> nth_error (t_in b) i = Some c ->
-  nth_error tasks jt = Some t -> nth_error ps jt = Some pr -> t_chans t = true -> NoDup (names_of t) ->
-  In o (t_out t) -> o_target o = t_path b ++ s_colon ++ i_name c -> is_explicit (o_target o) = false ->
-  given (o_name o) pr = Some (conn_addr (t_host b) c (t_alloc b i), m_connect, i_tr c).
-Proof.
-  intros W H Hb [NDb PLb] Hc Ht Hpr C NDt Ho Tg Ex.
-  destruct (configure_task _ _ _ _ _ H Ht Hpr) as (bm & B & P).
-  destruct (given_outbound _ _ _ _ C NDt P Ho) as (p & Po & G). rewrite G. f_equal.
-  unfold outbound_props in Po. rewrite Ex in Po.
-  assert (L : assoc (i_name c) (t_local b) = Some (mk_ep c (t_alloc b i))).
-  { unfold t_local. apply local_bindmap_name; [|exact PLb|exact Hc].
-    unfold names_of in NDb. apply nodup_app_elim in NDb. apply NDb. }
-  assert (A : is_alias_key (i_name c) = false) by (apply PLb; apply (nth_error_In _ _ Hc)).
-  rewrite Tg, (env_bindmap_path _ _ _ _ _ W B Hb L A) in Po. inversion Po; subst.
-  rewrite address_target_mk_ep by (apply (wf_env_host_ok _ _ W Hb)).
-  rewrite transport_to_target, transport_mk_ep. reflexivity.
-Qed.
-
-(* connect side, target "::alias"; [c] is the last channel of [b] that claims the alias *)
-Lemma connect_matches_bind_alias tasks ps jt t pr b pre c post o :
-  (forall x, In x tasks -> path_ok (t_path x)) -> (forall x, In x tasks -> host_ok (t_host x)) ->
-  configure tasks = Some ps ->
-  In b tasks -> (forall c', In c' (t_in b) -> is_alias_key (i_name c') = false) ->
-  t_in b = pre ++ c :: post -> i_global c <> [] -> (forall c', In c' post -> i_global c' <> i_global c) ->
-  nth_error tasks jt = Some t -> nth_error ps jt = Some pr -> t_chans t = true -> NoDup (names_of t) ->
-  In o (t_out t) -> o_target o = alias_key (i_global c) ->
-  given (o_name o) pr = Some (conn_addr (t_host b) c (t_alloc b (length pre)), m_connect, i_tr c).
-Proof.
-  intros Hp Hh H Hb PLb Eb G Last Ht Hpr C NDt Ho Tg.
-  destruct (configure_task _ _ _ _ _ H Ht Hpr) as (bm & B & P).
-  destruct (given_outbound _ _ _ _ C NDt P Ho) as (p & Po & Gv). rewrite Gv. f_equal.
-  unfold outbound_props in Po. rewrite Tg, alias_not_explicit in Po.
-  assert (L : In (alias_key (i_global c), mk_ep c (t_alloc b (length pre))) (t_local b)).
-  { apply local_In_assoc. unfold t_local. rewrite Eb. apply local_bindmap_alias; try assumption.
-    rewrite <- Eb. exact PLb. }
-  destruct (env_bindmap_alias _ _ _ _ _ Hp Hh B Hb L (alias_key_is_alias _)) as (ex & E & Ad & Tr).
-  rewrite E in Po. inversion Po; subst. rewrite Ad, Tr.
-  rewrite address_target_mk_ep by (apply (Hh b Hb)). rewrite transport_mk_ep. reflexivity.
-Qed.
-
-(* bind side *)
-Lemma bind_told tasks ps jb b pr i c :
-  configure tasks = Some ps -> nth_error tasks jb = Some b -> nth_error ps jb = Some pr ->
-  t_chans b = true -> names_ok b -> nth_error (t_in b) i = Some c -> i_target c = [] ->
-  given (i_name c) pr = Some (bound_addr c (t_alloc b i), m_bind, i_tr c).
-Proof.
-  intros H Hb Hpr C [ND PL] Hc Tg.
-  destruct (configure_task _ _ _ _ _ H Hb Hpr) as (bm & B & P).
-  apply (given_inbound bm b pr c); try assumption; [apply (nth_error_In _ _ Hc)|].
-  unfold inbound_props. rewrite Tg. cbn [is_explicit has_prefix s_tcp s_ipc orb nonempty].
-  assert (L : assoc (i_name c) (t_local b) = Some (mk_ep c (t_alloc b i))).
-  { unfold t_local. apply local_bindmap_name; [|exact PL|exact Hc].
-    unfold names_of in ND. apply nodup_app_elim in ND. apply ND. }
-  rewrite L, address_bound_mk_ep, transport_mk_ep. reflexivity.
-Qed.
-
-(* explicit targets are handed over unchanged *)
-Lemma explicit_outbound tasks ps jt t pr o :
-  configure tasks = Some ps -> nth_error tasks jt = Some t -> nth_error ps jt = Some pr ->
-  t_chans t = true -> NoDup (names_of t) -> In o (t_out t) -> is_explicit (o_target o) = true ->
-  given (o_name o) pr = Some (o_target o, m_connect, o_tr o).
-Proof.
-  intros H Ht Hpr C ND Ho Ex.
-  destruct (configure_task _ _ _ _ _ H Ht Hpr) as (bm & B & P).
-  destruct (given_outbound _ _ _ _ C ND P Ho) as (p & Po & G). rewrite G.
-  unfold outbound_props in Po. rewrite Ex in Po. symmetry. exact Po.
-Qed.
-
-Lemma explicit_inbound tasks ps jt t pr c :
-  configure tasks = Some ps -> nth_error tasks jt = Some t -> nth_error ps jt = Some pr ->
-  t_chans t = true -> NoDup (names_of t) -> In c (t_in t) -> is_explicit (i_target c) = true ->
-  given (i_name c) pr = Some (i_target c, m_bind, i_tr c).
-Proof.
-  intros H Ht Hpr C ND Hc Ex.
-  destruct (configure_task _ _ _ _ _ H Ht Hpr) as (bm & B & P).
-  apply (given_inbound bm t pr c); try assumption.
-  unfold inbound_props. rewrite Ex. reflexivity.
-Qed.
-
-(* a target names channel [c] of task [b] *)
-Definition names_target (b : task) (c : inbound) (tgt : str) : Prop :=
-  tgt = bind_key (t_path b) (i_name c) \/ (i_global c <> [] /\ tgt = alias_key (i_global c)).
-
-Lemma writes_key_names b k : writes_key b k -> exists c, In c (t_in b) /\ names_target b c k.
-Proof.
-  intros (n & ep & Hi & E). apply local_In_assoc in Hi. apply local_bindmap_inv in Hi.
-  destruct Hi as (i & c & Hc & S & _). exists c. split; [apply (nth_error_In _ _ Hc)|].
-  destruct S as [S|[G S]]; subst n.
-  - left. symmetry. exact E.
-  - right. split; [exact G|]. rewrite bind_key_alias in E by apply alias_key_is_alias. symmetry. exact E.
-Qed.
-
-(* a target that names nothing fails the configuration *)
-Lemma unmatched_fails tasks t o :
-  In t tasks -> t_chans t = true -> In o (t_out t) -> is_explicit (o_target o) = false ->
-  (forall b c, In b tasks -> In c (t_in b) -> ~ names_target b c (o_target o)) ->
-  configure tasks = None.
-Proof.
-  intros Ht C Ho Ex Hn. unfold configure. destruct (env_bindmap tasks) as [bm|] eqn:B; [|reflexivity].
-  apply (all_props_none bm tasks t Ht). unfold task_props. rewrite C.
-  rewrite (out_writes_none bm (t_out t) o Ho); [reflexivity|].
-  unfold outbound_props. rewrite Ex.
-  unfold env_bindmap in B. rewrite (env_from_other _ _ _ (o_target o) B); [reflexivity|].
-  intros b Hb Wk. destruct (writes_key_names _ _ Wk) as (c & Hc & Nt). apply (Hn b c Hb Hc Nt).
-Qed.
-
-(* an alias claimed by two tasks is rejected unless both stand for one and the same IPC endpoint *)
-Lemma nth_error_two {A} (l : list A) j1 j2 a b :
-  nth_error l j1 = Some a -> nth_error l j2 = Some b -> (j1 < j2)%nat ->
-  exists pre mid post, l = pre ++ a :: mid ++ b :: post.
-Proof.
-  intros H1 H2 Lt. destruct (nth_error_split _ _ _ H1) as (pre & rest & -> & L).
-  rewrite nth_error_app2 in H2 by lia. rewrite L in H2.
-  destruct (j2 - j1)%nat as [|d] eqn:D; [lia|]. cbn [nth_error] in H2.
-  destruct (nth_error_split _ _ _ H2) as (mid & post & -> & _).
-  exists pre, mid, post. reflexivity.
-Qed.
-
-Lemma alias_two_tasks_rejected tasks j1 j2 b1 b2 k e1 e2 :
-  (forall x, In x tasks -> path_ok (t_path x)) -> (forall x, In x tasks -> host_ok (t_host x)) ->
-  nth_error tasks j1 = Some b1 -> nth_error tasks j2 = Some b2 -> j1 <> j2 ->
-  is_alias_key k = true -> In (k, e1) (t_local b1) -> In (k, e2) (t_local b2) ->
-  ~ (exists p tr, e1 = Ipc p tr /\ e2 = Ipc p tr) ->
-  configure tasks = None.
-Proof.
-  intros Hp Hh H1 H2 Ne A I1 I2 Nx. unfold configure.
-  destruct (env_bindmap tasks) as [bm|] eqn:B; [|reflexivity]. exfalso. apply Nx.
-  destruct (Nat.lt_total j1 j2) as [Lt|[Eq|Gt]]; [|contradiction|].
-  - destruct (nth_error_two _ _ _ _ _ H1 H2 Lt) as (pre & mid & post & E). subst tasks.
-    apply (env_from_alias_two pre b1 mid b2 post bm k e1 e2 Hp Hh B A I1 I2).
-  - destruct (nth_error_two _ _ _ _ _ H2 H1 Gt) as (pre & mid & post & E). subst tasks.
-    destruct (env_from_alias_two pre b2 mid b1 post bm k e2 e1 Hp Hh B A I2 I1) as (p & tr & X & Y).
-    exists p, tr. split; assumption.
-Qed.
-
-(* an alias claimed by a channel is present in the task's local map *)
-Lemma local_from_present : forall chs j al m k,
-  (assoc k m <> None \/ exists c, In c chs /\ sets_key c k) ->
-  assoc k (local_from chs j al m) <> None.
-Proof.
-  induction chs as [|c chs IH]; intros j al m k H; cbn [local_from].
-  - destruct H as [H|(c & [] & _)]. exact H.
-  - apply IH. destruct (sets_key_dec c k) as [S|S].
-    + left. rewrite (local_step_sets c (al j) m k S). discriminate.
-    + destruct H as [H|(c' & [Hc|Hc] & S')].
-      * left. rewrite local_step_other by exact S. exact H.
-      * subst c'. contradiction.
-      * right. exists c'. split; assumption.
-Qed.
-
-Lemma local_claim_present t c :
-  In c (t_in t) -> i_global c <> [] ->
-  exists i c', nth_error (t_in t) i = Some c' /\ sets_key c' (alias_key (i_global c)) /\
-               In (alias_key (i_global c), mk_ep c' (t_alloc t i)) (t_local t).
-Proof.
-  intros Hc G.
-  destruct (assoc (alias_key (i_global c)) (t_local t)) as [e|] eqn:E.
-  - pose proof E as E'. unfold t_local in E'. apply local_bindmap_inv in E'.
-    destruct E' as (i & c' & Hn & S & ->). exists i, c'. split; [exact Hn|]. split; [exact S|].
-    apply local_In_assoc. exact E.
-  - exfalso. revert E. unfold t_local, local_bindmap. apply local_from_present.
-    right. exists c. split; [exact Hc|]. right. split; [exact G|reflexivity].
-Qed.
-
-(* channel form: an alias claimed in two tasks, by TCP-addressed channels in one of them *)
-Lemma alias_two_tasks_tcp_rejected tasks j1 j2 b1 b2 c1 c2 :
-  (forall x, In x tasks -> path_ok (t_path x)) -> (forall x, In x tasks -> host_ok (t_host x)) ->
-  nth_error tasks j1 = Some b1 -> nth_error tasks j2 = Some b2 -> j1 <> j2 ->
-  In c1 (t_in b1) -> In c2 (t_in b2) -> i_global c1 <> [] -> i_global c2 = i_global c1 ->
-  (forall c, In c (t_in b1) -> sets_key c (alias_key (i_global c1)) -> i_ipc c = false) ->
-  configure tasks = None.
-Proof.
-  intros Hp Hh H1 H2 Ne I1 I2 G Eg Tcp1.
-  destruct (local_claim_present b1 c1 I1 G) as (i1 & c1' & N1 & S1 & L1).
-  assert (G2 : i_global c2 <> []) by congruence.
-  destruct (local_claim_present b2 c2 I2 G2) as (i2 & c2' & N2 & S2 & L2). rewrite Eg in L2.
-  apply (alias_two_tasks_rejected tasks j1 j2 b1 b2 _ _ _ Hp Hh H1 H2 Ne (alias_key_is_alias _) L1 L2).
-  intros (p & tr & X & _). unfold mk_ep in X.
-  rewrite (Tcp1 c1' (nth_error_In _ _ N1) S1) in X. discriminate.
-Qed.
-
-(* ---------- the statements the unchanged code does not meet ---------- *)
-(* "the connecting side is given the endpoint the binding side is told to bind", for every
-   inbound declaration *)
-Definition agreement_statement : Prop :=
-  forall tasks ps jb b prb i c jt t prt o,
-    wf_env tasks -> configure tasks = Some ps ->
-    nth_error tasks jb = Some b -> nth_error ps jb = Some prb -> t_chans b = true -> names_ok b ->
-    nth_error (t_in b) i = Some c ->
-    nth_error tasks jt = Some t -> nth_error ps jt = Some prt -> t_chans t = true -> names_ok t ->
-    In o (t_out t) -> o_target o = t_path b ++ s_colon ++ i_name c -> is_explicit (o_target o) = false ->
-    exists a, given (o_name o) prt = Some (conn_addr (t_host b) c a, m_connect, i_tr c) /\
-              given (i_name c) prb = Some (bound_addr c a, m_bind, i_tr c).
-
-Definition s_default : str := [100;101;102;97;117;108;116].
-Definition s_in0 : str := [105;110;48].
-Definition s_in1 : str := [105;110;49].
-Definition s_out0 : str := [111;117;116;48].
-Definition s_h1 : str := [104;49].
-Definition s_h2 : str := [104;50].
-Definition s_ga : str := [103;97].
-
-(* witness 1: the binder is told its explicit target, the peer is sent to the allocated port *)
-Definition wit1_c : inbound := mkIn s_in0 s_default [116;99;112;58;47;47;42;58;53;53;53;53] [] false.
-Definition wit1_o : outbound := mkOut s_out0 s_default [119;46;98;58;105;110;48].
-Definition wit1_wb : wtask := mkW [[119];[98]] [[wit1_c]; []] [[]; []] true [] [] s_h1 [(9000, [])].
-Definition wit1_wt : wtask := mkW [[119];[99]] [[]; []] [[wit1_o]; []] true [] [] s_h2 [].
-Definition wit1_ws : list wtask := [wit1_wb; wit1_wt].
-Definition wit1_prb : props := [(s_in0, ([116;99;112;58;47;47;42;58;53;53;53;53], m_bind, s_default))].
-Definition wit1_prt : props := [(s_out0, ([116;99;112;58;47;47;104;49;58;57;48;48;48], m_connect, s_default))].
-Definition wit1_tasks : list task := map task_of wit1_ws.
-
-Lemma wit1_wf : wf_env wit1_tasks.
-Proof.
-  split.
-  - cbn. constructor; [intros [H|[]]; discriminate|]. constructor; [intros []|constructor].
-  - intros t [<-|[<-|[]]]; cbn; (split; [discriminate|]); (split; [|split; discriminate]);
-      unfold no_colon; cbn; intuition discriminate.
-Qed.
-
-Lemma wit_names_ok w : nodupb str_eqb (names_of (task_of w)) = true ->
-  forallb (fun i => negb (is_alias_key (i_name i))) (t_in (task_of w)) = true -> names_ok (task_of w).
-Proof.
-  intros H1 H2. split.
-  - revert H1. generalize (names_of (task_of w)). induction l as [|x l IH]; cbn; intro H; [constructor|].
-    apply andb_true_iff in H. destruct H as [Hx Hl]. constructor; [|apply IH, Hl].
-    intro HI. apply negb_true_iff in Hx. assert (existsb (str_eqb x) l = true); [|congruence].
-    apply existsb_exists. exists x. split; [exact HI|apply str_eqb_refl].
-  - intros i Hi. rewrite forallb_forall in H2. apply negb_true_iff. apply H2, Hi.
-Qed.
-
-Lemma agree_inv h c a x y :
-  i_ipc c = false -> conn_addr h c a = s_tcp ++ h ++ s_colon ++ x ->
-  bound_addr c a = s_tcp ++ s_star ++ s_colon ++ y -> x = y.
-Proof.
-  unfold conn_addr, bound_addr. intros -> E1 E2.
-  apply app_inv_head in E1. apply app_inv_head in E1. apply app_inv_head in E1.
-  apply app_inv_head in E2. apply app_inv_head in E2. apply app_inv_head in E2. congruence.
-Qed.
-
-Lemma wit1_configure : configure wit1_tasks = Some [wit1_prb; wit1_prt].
-Proof. vm_compute. reflexivity. Qed.
-
-Lemma agreement_refuted : ~ agreement_statement.
-Proof.
-  intro S.
-  destruct (S wit1_tasks [wit1_prb; wit1_prt] 0%nat (task_of wit1_wb) wit1_prb 0%nat wit1_c
-              1%nat (task_of wit1_wt) wit1_prt wit1_o wit1_wf wit1_configure) as (a & A1 & A2);
-    try reflexivity.
-  - apply wit_names_ok; reflexivity.
-  - apply wit_names_ok; reflexivity.
-  - left. reflexivity.
-  - assert (G1 : given (o_name wit1_o) wit1_prt =
-                 Some ([116;99;112;58;47;47;104;49;58;57;48;48;48], m_connect, s_default)) by reflexivity.
-    assert (G2 : given (i_name wit1_c) wit1_prb =
-                 Some ([116;99;112;58;47;47;42;58;53;53;53;53], m_bind, s_default)) by reflexivity.
-    rewrite G1 in A1. rewrite G2 in A2. inversion A1 as [E1]. inversion A2 as [E2].
-    rewrite <- E1 in E2. discriminate.
-Qed.
-
-(* witness 2: a declaration the device interface refuses is not configured but still
-   advertised to the peers *)
-Definition wit2_c : inbound := mkIn s_in0 s_default [110;111;110;115;101;110;115;101] [] false.
-Definition wit2_ws : list wtask :=
-  [ mkW [[119];[98]] [[wit2_c]; []] [[]; []] true [] [] s_h1 [(9000, [])];
-    mkW [[119];[99]] [[]; []] [[wit1_o]; []] true [] [] s_h2 [] ].
-
-Lemma invalid_inbound_advertised :
-  exists ps prb prt, configure_wf wit2_ws = Some ps /\ nth_error ps 0 = Some prb /\ nth_error ps 1 = Some prt /\
-    given (i_name wit2_c) prb = None /\
-    given (o_name wit1_o) prt = Some ([116;99;112;58;47;47;104;49;58;57;48;48;48], m_connect, s_default).
-Proof.
-  eexists. eexists. eexists. vm_compute. repeat split; reflexivity.
-Qed.
-
-(* witness 3: one task, two channels with one alias: accepted, the later one wins *)
-Definition alias_conflict_statement : Prop :=
-  forall tasks j1 j2 b1 b2 i1 i2 c1 c2,
-    (forall x, In x tasks -> path_ok (t_path x)) -> (forall x, In x tasks -> host_ok (t_host x)) ->
-    nth_error tasks j1 = Some b1 -> nth_error tasks j2 = Some b2 ->
-    nth_error (t_in b1) i1 = Some c1 -> nth_error (t_in b2) i2 = Some c2 ->
-    (j1, i1) <> (j2, i2) -> i_global c1 <> [] -> i_global c2 = i_global c1 ->
-    to_target (t_host b1) (mk_ep c1 (t_alloc b1 i1)) <> to_target (t_host b2) (mk_ep c2 (t_alloc b2 i2)) ->
-    configure tasks = None.
-
-Definition wit3_c1 : inbound := mkIn s_in0 s_default [] s_ga false.
-Definition wit3_c2 : inbound := mkIn s_in1 s_default [] s_ga true.
-Definition wit3_w : wtask :=
-  mkW [[119];[98]] [[wit3_c1; wit3_c2]; []] [[]; []] true [] [] s_h1 [(9000, []); (0, [64;112])].
-Definition wit3_ws : list wtask := [wit3_w].
-
-Lemma alias_conflict_refuted : ~ alias_conflict_statement.
-Proof.
-  intro S.
-  assert (X : configure (map task_of wit3_ws) = None).
-  { apply (S (map task_of wit3_ws) 0%nat 0%nat (task_of wit3_w) (task_of wit3_w) 0%nat 1%nat wit3_c1 wit3_c2).
-    - intros x [<-|[]]. cbn. discriminate.
-    - intros x [<-|[]]. cbn. split; discriminate.
-    - reflexivity.
-    - reflexivity.
-    - reflexivity.
-    - reflexivity.
-    - intro E. inversion E.
-    - discriminate.
-    - reflexivity.
-    - cbn. discriminate. }
-  vm_compute in X. discriminate.
-Qed.
-
-Lemma agreement_partial tasks ps jb b prb i c jt t prt o :
-  wf_env tasks -> configure tasks = Some ps ->
-  nth_error tasks jb = Some b -> nth_error ps jb = Some prb -> t_chans b = true -> names_ok b ->
-  nth_error (t_in b) i = Some c ->
-  nth_error tasks jt = Some t -> nth_error ps jt = Some prt -> t_chans t = true -> names_ok t ->
-  In o (t_out t) -> o_target o = t_path b ++ s_colon ++ i_name c -> is_explicit (o_target o) = false ->
-  i_target c = [] ->
-  given (o_name o) prt = Some (conn_addr (t_host b) c (t_alloc b i), m_connect, i_tr c) /\
-  given (i_name c) prb = Some (bound_addr c (t_alloc b i), m_bind, i_tr c).
-Proof.
-  intros W H Hb Hpb Cb Nb Hc Ht Hpt Ct [Nt _] Ho Tg Ex Tc. split.
-  - apply (connect_matches_bind_path tasks ps jt t prt b i c o); try assumption.
-    apply (nth_error_In _ _ Hb).
-  - apply (bind_told tasks ps jb b prb i c); assumption.
-Qed.
-
-(* the two addresses name one endpoint: same port on the binder's host, or the same path *)
-Lemma conn_bound_same_endpoint h c a :
-  (i_ipc c = false -> conn_addr h c a = s_tcp ++ h ++ s_colon ++ dec (fst a) /\
-                      bound_addr c a = s_tcp ++ s_star ++ s_colon ++ dec (fst a)) /\
-  (i_ipc c = true -> conn_addr h c a = s_ipc ++ snd a /\ bound_addr c a = s_ipc ++ snd a).
-Proof. unfold conn_addr, bound_addr. split; intros ->; split; reflexivity. Qed.
-
-(* ====================================================================================== *)
-(* converse: a configuration is refused only for an unmatched target or an alias claimed   *)
-(* by two tasks                                                                            *)
+(* presence and provenance of environment-map keys                                         *)
 (* ====================================================================================== *)
 Lemma set_present {V} k n (v : V) m : assoc k m <> None -> assoc k (bm_set n v m) <> None.
 Proof.
@@ -1401,7 +1056,7 @@ Lemma env_from_present : forall tasks bm bm' k,
 Proof.
   induction tasks as [|t r IH]; intros bm bm' k P H; cbn [env_from] in H.
   - inversion H; subst. exact P.
-  - destruct (env_add (t_path t) (t_host t) (t_local t) bm) as [bm1|] eqn:E; [|discriminate].
+  - destruct (alias_dup (t_in t)) eqn:AD; [discriminate|]. destruct (env_add (t_path t) (t_host t) (t_local t) bm) as [bm1|] eqn:E; [|discriminate].
     apply (IH bm1 bm' k); [|exact H]. apply (env_add_present _ _ _ _ _ _ P E).
 Qed.
 
@@ -1409,48 +1064,13 @@ Lemma env_from_written : forall tasks bm bm' t k,
   In t tasks -> writes_key t k -> env_from tasks bm = Some bm' -> assoc k bm' <> None.
 Proof.
   induction tasks as [|t' r IH]; intros bm bm' t k HI Wk H; [contradiction|]. cbn [env_from] in H.
-  destruct (env_add (t_path t') (t_host t') (t_local t') bm) as [bm1|] eqn:E; [|discriminate].
+  destruct (alias_dup (t_in t')) eqn:AD; [discriminate|]. destruct (env_add (t_path t') (t_host t') (t_local t') bm) as [bm1|] eqn:E; [|discriminate].
   destruct HI as [HI|HI].
   - subst t'. destruct Wk as (n & ep & Hi & <-).
     apply (env_from_present r bm1 bm'); [|exact H]. apply (env_add_written _ _ _ _ _ _ _ Hi E).
   - apply (IH bm1 bm' t k HI Wk H).
 Qed.
 
-Lemma names_target_writes b c k : In c (t_in b) -> names_target b c k -> writes_key b k.
-Proof.
-  intros Hc Nt.
-  assert (P : forall key, sets_key c key -> exists ep, In (key, ep) (t_local b)).
-  { intros key S. destruct (assoc key (t_local b)) as [ep|] eqn:E.
-    - exists ep. apply local_In_assoc. exact E.
-    - exfalso. revert E. unfold t_local, local_bindmap. apply local_from_present.
-      right. exists c. split; assumption. }
-  destruct Nt as [->|[G ->]].
-  - destruct (P (i_name c) (or_introl eq_refl)) as (ep & Hi). exists (i_name c), ep. split; [exact Hi|reflexivity].
-  - destruct (P (alias_key (i_global c)) (or_intror (conj G eq_refl))) as (ep & Hi).
-    exists (alias_key (i_global c)), ep. split; [exact Hi|]. apply bind_key_alias, alias_key_is_alias.
-Qed.
-
-Lemma all_props_none_inv : forall bm tasks,
-  all_props bm tasks = None -> exists t, In t tasks /\ task_props bm t = None.
-Proof.
-  induction tasks as [|t r IH]; intro H; cbn [all_props] in H; [discriminate|].
-  destruct (task_props bm t) as [p|] eqn:P.
-  - destruct (all_props bm r) as [ps|] eqn:A; [discriminate|].
-    destruct (IH eq_refl) as (t' & Ht' & P'). exists t'. split; [right; exact Ht'|exact P'].
-  - exists t. split; [left; reflexivity|exact P].
-Qed.
-
-Lemma out_writes_none_inv : forall bm outs,
-  out_writes bm outs = None -> exists o, In o outs /\ outbound_props bm o = None.
-Proof.
-  induction outs as [|o r IH]; intro H; cbn [out_writes] in H; [discriminate|].
-  destruct (outbound_props bm o) as [p|] eqn:P.
-  - destruct (out_writes bm r) as [w|] eqn:W; [discriminate|].
-    destruct (IH eq_refl) as (o' & Ho' & P'). exists o'. split; [right; exact Ho'|exact P'].
-  - exists o. split; [left; reflexivity|exact P].
-Qed.
-
-(* where an alias entry of the environment map comes from *)
 Lemma env_add_keys : forall entries path host bm bm' k ex,
   env_add path host entries bm = Some bm' -> assoc k bm' = Some ex ->
   assoc k bm <> None \/ exists n ep, In (n, ep) entries /\ bind_key path n = k.
@@ -1475,7 +1095,482 @@ Proof.
     + apply (Hset (path ++ s_colon ++ n) (to_target host ep) (IH _ _ _ _ _ _ H E)). apply bind_key_path, A.
 Qed.
 
-(* a task is refused only because an alias it claims is already there *)
+Lemma env_from_keys : forall tasks bm bm' k ex,
+  env_from tasks bm = Some bm' -> assoc k bm' = Some ex ->
+  assoc k bm <> None \/ exists t, In t tasks /\ writes_key t k.
+Proof.
+  induction tasks as [|t r IH]; intros bm bm' k ex H E; cbn [env_from] in H.
+  - inversion H; subst. left. rewrite E. discriminate.
+  - destruct (alias_dup (t_in t)); [discriminate|].
+    destruct (env_add (t_path t) (t_host t) (t_local t) bm) as [bm1|] eqn:E1; [|discriminate].
+    destruct (IH _ _ _ _ H E) as [P|(t' & Ht' & W)].
+    + destruct (assoc k bm1) as [ex1|] eqn:X; [|congruence].
+      destruct (env_add_keys _ _ _ _ _ _ _ E1 X) as [P0|(n & ep & Hi & Bk)]; [left; exact P0|].
+      right. exists t. split; [left; reflexivity|]. exists n, ep. split; assumption.
+    + right. exists t'. split; [right; exact Ht'|exact W].
+Qed.
+
+Lemma env_from_no_dup : forall tasks bm bm' t,
+  env_from tasks bm = Some bm' -> In t tasks -> alias_dup (t_in t) = false.
+Proof.
+  induction tasks as [|t' r IH]; intros bm bm' t H HI; [contradiction|]. cbn [env_from] in H.
+  destruct (alias_dup (t_in t')) eqn:AD; [discriminate|].
+  destruct (env_add (t_path t') (t_host t') (t_local t') bm) as [bm1|]; [|discriminate].
+  destruct HI as [HI|HI]; [subst; exact AD|apply (IH _ _ _ H HI)].
+Qed.
+
+Lemma env_from_dup_none : forall tasks bm t,
+  In t tasks -> alias_dup (t_in t) = true -> env_from tasks bm = None.
+Proof.
+  induction tasks as [|t' r IH]; intros bm t HI AD; [contradiction|]. cbn [env_from].
+  destruct HI as [HI|HI].
+  - subst. rewrite AD. reflexivity.
+  - destruct (alias_dup (t_in t')); [reflexivity|].
+    destruct (env_add (t_path t') (t_host t') (t_local t') bm); [apply (IH _ t HI AD)|reflexivity].
+Qed.
+
+(* ---------- duplicates among the aliases of one task ---------- *)
+Lemma nodupb_NoDup : forall l : list str, nodupb str_eqb l = true <-> NoDup l.
+Proof.
+  induction l as [|x l IH]; cbn; [split; [constructor|reflexivity]|].
+  rewrite andb_true_iff, negb_true_iff, IH. split.
+  - intros [Hx Hl]. constructor; [|exact Hl]. intro HI.
+    assert (existsb (str_eqb x) l = true); [|congruence].
+    apply existsb_exists. exists x. split; [exact HI|apply str_eqb_refl].
+  - intro ND. inversion ND as [|y ys Hnot ND']; subst. split; [|exact ND'].
+    destruct (existsb (str_eqb x) l) eqn:E; [|reflexivity]. exfalso. apply Hnot.
+    apply existsb_exists in E. destruct E as (y & Hy & Q). apply str_eqb_spec in Q. subst. exact Hy.
+Qed.
+
+Lemma globals_of_app l1 l2 : globals_of (l1 ++ l2) = globals_of l1 ++ globals_of l2.
+Proof. unfold globals_of. rewrite map_app, filter_app. reflexivity. Qed.
+
+Lemma globals_of_cons c l : i_global c <> [] -> globals_of (c :: l) = i_global c :: globals_of l.
+Proof. intro G. unfold globals_of. cbn [map filter]. apply nonempty_true in G. rewrite G. reflexivity. Qed.
+
+Lemma globals_of_In c l : In c l -> i_global c <> [] -> In (i_global c) (globals_of l).
+Proof.
+  intros HI G. unfold globals_of. apply filter_In. split; [apply in_map; exact HI|apply nonempty_true, G].
+Qed.
+
+(* without duplicates, the channel that declares an alias is the only one *)
+Lemma no_dup_unique pre c post :
+  alias_dup (pre ++ c :: post) = false -> i_global c <> [] ->
+  forall c', In c' (pre ++ post) -> i_global c' <> i_global c.
+Proof.
+  intros AD G c' HI E. unfold alias_dup in AD. apply negb_false_iff in AD. apply nodupb_NoDup in AD.
+  rewrite globals_of_app, globals_of_cons in AD by exact G. apply NoDup_remove_2 in AD. apply AD.
+  rewrite <- globals_of_app, <- E. apply globals_of_In; [exact HI|congruence].
+Qed.
+
+Lemma nth_error_two {A} (l : list A) j1 j2 a b :
+  nth_error l j1 = Some a -> nth_error l j2 = Some b -> (j1 < j2)%nat ->
+  exists pre mid post, l = pre ++ a :: mid ++ b :: post.
+Proof.
+  intros H1 H2 Lt. destruct (nth_error_split _ _ _ H1) as (pre & rest & -> & L).
+  rewrite nth_error_app2 in H2 by lia. rewrite L in H2.
+  destruct (j2 - j1)%nat as [|d] eqn:D; [lia|]. cbn [nth_error] in H2.
+  destruct (nth_error_split _ _ _ H2) as (mid & post & -> & _).
+  exists pre, mid, post. reflexivity.
+Qed.
+
+Lemma dup_two chs i1 i2 c1 c2 :
+  nth_error chs i1 = Some c1 -> nth_error chs i2 = Some c2 -> i1 <> i2 ->
+  i_global c1 <> [] -> i_global c2 = i_global c1 -> alias_dup chs = true.
+Proof.
+  intros H1 H2 Ne G E. destruct (alias_dup chs) eqn:AD; [reflexivity|]. exfalso.
+  assert (G2 : i_global c2 <> []) by congruence.
+  destruct (Nat.lt_total i1 i2) as [Lt|[Eq|Gt]]; [|contradiction|].
+  - destruct (nth_error_two _ _ _ _ _ H1 H2 Lt) as (pre & mid & post & ->).
+    apply (no_dup_unique pre c1 (mid ++ c2 :: post) AD G c2); [|exact E].
+    apply in_or_app. right. apply in_or_app. right. left. reflexivity.
+  - destruct (nth_error_two _ _ _ _ _ H2 H1 Gt) as (pre & mid & post & ->).
+    apply (no_dup_unique pre c2 (mid ++ c1 :: post) AD G2 c1); [|congruence].
+    apply in_or_app. right. apply in_or_app. right. left. reflexivity.
+Qed.
+
+Lemma local_from_present : forall chs j al m k,
+  (assoc k m <> None \/ exists c, In c chs /\ sets_key c k) ->
+  assoc k (local_from chs j al m) <> None.
+Proof.
+  induction chs as [|c chs IH]; intros j al m k H; cbn [local_from].
+  - destruct H as [H|(c & [] & _)]. exact H.
+  - apply IH. destruct (sets_key_dec c k) as [S|S].
+    + left. rewrite (local_step_sets c (al j) m k S). discriminate.
+    + destruct H as [H|(c' & [Hc|Hc] & S')].
+      * left. rewrite local_step_other by exact S. exact H.
+      * subst c'. contradiction.
+      * right. exists c'. split; assumption.
+Qed.
+
+(* ====================================================================================== *)
+(* the property                                                                            *)
+(* ====================================================================================== *)
+Lemma alias_not_explicit g : is_explicit (alias_key g) = false.
+Proof. reflexivity. Qed.
+
+(* a target names channel [c] of task [b]: by "path:name" or by its alias, and [c] takes part in
+   matching (no target of its own) *)
+Definition names_target (b : task) (c : inbound) (tgt : str) : Prop :=
+  i_target c = [] /\
+  (tgt = bind_key (t_path b) (i_name c) \/ (i_global c <> [] /\ tgt = alias_key (i_global c))).
+
+Lemma writes_key_names b k : writes_key b k -> exists c, In c (t_in b) /\ names_target b c k.
+Proof.
+  intros (n & ep & Hi & E). apply local_In_assoc in Hi. apply local_bindmap_inv in Hi.
+  destruct Hi as (i & c & Hc & [T S] & _). exists c. split; [apply (nth_error_In _ _ Hc)|].
+  split; [exact T|]. destruct S as [S|[G S]]; subst n.
+  - left. symmetry. exact E.
+  - right. split; [exact G|]. rewrite bind_key_alias in E by apply alias_key_is_alias. symmetry. exact E.
+Qed.
+
+Lemma names_target_writes b c k : In c (t_in b) -> names_target b c k -> writes_key b k.
+Proof.
+  intros Hc [T Nt].
+  assert (P : forall key, sets_key c key -> exists ep, In (key, ep) (t_local b)).
+  { intros key S. destruct (assoc key (t_local b)) as [ep|] eqn:E.
+    - exists ep. apply local_In_assoc. exact E.
+    - exfalso. revert E. unfold t_local, local_bindmap. apply local_from_present.
+      right. exists c. split; assumption. }
+  destruct Nt as [->|[G ->]].
+  - destruct (P (i_name c) (conj T (or_introl eq_refl))) as (ep & Hi). exists (i_name c), ep. split; [exact Hi|reflexivity].
+  - destruct (P (alias_key (i_global c)) (conj T (or_intror (conj G eq_refl)))) as (ep & Hi).
+    exists (alias_key (i_global c)), ep. split; [exact Hi|]. apply bind_key_alias, alias_key_is_alias.
+Qed.
+
+(* only channels without a target of their own are advertised under "path:name" *)
+Lemma NoDup_map_In_eq {A B} (f : A -> B) (l : list A) a b :
+  NoDup (map f l) -> In a l -> In b l -> f a = f b -> a = b.
+Proof.
+  induction l as [|x l IH]; intros ND Ha Hb E; [contradiction|]. cbn [map] in ND.
+  inversion ND as [|y ys Hnot ND']; subst. destruct Ha as [Ha|Ha], Hb as [Hb|Hb].
+  - congruence.
+  - subst x. exfalso. apply Hnot. rewrite E. apply in_map. exact Hb.
+  - subst x. exfalso. apply Hnot. rewrite <- E. apply in_map. exact Ha.
+  - apply (IH ND' Ha Hb E).
+Qed.
+
+Lemma advertised_target_free tasks bm b c :
+  wf_env tasks -> env_bindmap tasks = Some bm -> In b tasks -> names_ok b -> In c (t_in b) ->
+  assoc (t_path b ++ s_colon ++ i_name c) bm <> None -> i_target c = [].
+Proof.
+  intros W B Hb [ND PL] Hc P.
+  destruct (assoc (t_path b ++ s_colon ++ i_name c) bm) as [ex|] eqn:E; [clear P|congruence].
+  unfold env_bindmap in B. destruct (env_from_keys _ _ _ _ _ B E) as [X|(b' & Hb' & n & ep & Hi & Bk)].
+  - exfalso. apply X. reflexivity.
+  - assert (Pb : path_ok (t_path b)) by (apply (wf_env_path_ok _ _ W Hb)).
+    destruct (is_alias_key n) eqn:A.
+    + rewrite bind_key_alias in Bk by exact A. rewrite Bk, path_key_not_alias in A by exact Pb. discriminate.
+    + rewrite bind_key_path in Bk by exact A. destruct W as [NDp Wf].
+      destruct (key_inj _ _ _ _ (proj1 (proj2 (Wf b' Hb'))) (proj1 (proj2 (Wf b Hb))) Bk) as [Ep En].
+      assert (b' = b) by (apply (NoDup_map_In_eq t_path tasks); assumption). subst b' n.
+      apply local_In_assoc in Hi. apply local_bindmap_inv in Hi.
+      destruct Hi as (i & c' & Hc' & [T S] & _).
+      assert (c' = c); [|subst; exact T].
+      unfold names_of in ND. apply nodup_app_elim in ND. destruct ND as (N1 & _ & _).
+      destruct S as [S|[_ S]].
+      * apply (NoDup_map_In_eq i_name (t_in b)); [exact N1|apply (nth_error_In _ _ Hc')|exact Hc|congruence].
+      * exfalso. specialize (PL c Hc). rewrite S, alias_key_is_alias in PL. discriminate.
+Qed.
+
+(* connect side, target "path:name" *)
+Lemma connect_matches_bind_path tasks ps jt t pr b i c o :
+  wf_env tasks -> configure tasks = Some ps ->
+  In b tasks -> names_ok b -> nth_error (t_in b) i = Some c ->
+  nth_error tasks jt = Some t -> nth_error ps jt = Some pr -> t_chans t = true -> NoDup (names_of t) ->
+  In o (t_out t) -> o_target o = t_path b ++ s_colon ++ i_name c -> is_explicit (o_target o) = false ->
+  i_target c = [] /\
+  given (o_name o) pr = Some (conn_addr (t_host b) c (t_alloc b i), m_connect, i_tr c).
+Proof.
+  intros W H Hb Nb Hc Ht Hpr C NDt Ho Tg Ex.
+  destruct (configure_task _ _ _ _ _ H Ht Hpr) as (bm & B & P).
+  destruct (given_outbound _ _ _ _ C NDt P Ho) as (p & Po & G). rewrite G.
+  unfold outbound_props in Po. rewrite Ex, Tg in Po.
+  assert (T : i_target c = []).
+  { apply (advertised_target_free tasks bm b c W B Hb Nb (nth_error_In _ _ Hc)).
+    destruct (assoc (t_path b ++ s_colon ++ i_name c) bm); [discriminate|discriminate]. }
+  split; [exact T|]. f_equal. destruct Nb as [NDb PLb].
+  assert (L : assoc (i_name c) (t_local b) = Some (mk_ep c (t_alloc b i))).
+  { unfold t_local. apply local_bindmap_name; [|exact PLb|exact Hc|exact T].
+    unfold names_of in NDb. apply nodup_app_elim in NDb. apply NDb. }
+  assert (A : is_alias_key (i_name c) = false) by (apply PLb; apply (nth_error_In _ _ Hc)).
+  rewrite (env_bindmap_path _ _ _ _ _ W B Hb L A) in Po. inversion Po; subst.
+  rewrite address_target_mk_ep by (apply (wf_env_host_ok _ _ W Hb)).
+  rewrite transport_to_target, transport_mk_ep. reflexivity.
+Qed.
+
+(* connect side, target "::alias"; [c] is a channel of [b] that declares the alias and takes part
+   in matching *)
+Lemma connect_matches_bind_alias tasks ps jt t pr b i c o :
+  (forall x, In x tasks -> path_ok (t_path x)) -> (forall x, In x tasks -> host_ok (t_host x)) ->
+  configure tasks = Some ps ->
+  In b tasks -> (forall c', In c' (t_in b) -> is_alias_key (i_name c') = false) ->
+  nth_error (t_in b) i = Some c -> i_global c <> [] -> i_target c = [] ->
+  nth_error tasks jt = Some t -> nth_error ps jt = Some pr -> t_chans t = true -> NoDup (names_of t) ->
+  In o (t_out t) -> o_target o = alias_key (i_global c) ->
+  given (o_name o) pr = Some (conn_addr (t_host b) c (t_alloc b i), m_connect, i_tr c).
+Proof.
+  intros Hp Hh H Hb PLb Hc G T Ht Hpr C NDt Ho Tg.
+  destruct (configure_task _ _ _ _ _ H Ht Hpr) as (bm & B & P).
+  destruct (given_outbound _ _ _ _ C NDt P Ho) as (p & Po & Gv). rewrite Gv. f_equal.
+  unfold outbound_props in Po. rewrite Tg, alias_not_explicit in Po.
+  destruct (nth_error_split _ _ _ Hc) as (pre & post & Eb & Li).
+  pose proof (env_from_no_dup _ _ _ _ B Hb) as AD. rewrite Eb in AD.
+  assert (L : In (alias_key (i_global c), mk_ep c (t_alloc b i)) (t_local b)).
+  { apply local_In_assoc. unfold t_local. rewrite Eb, <- Li. apply local_bindmap_alias; try assumption.
+    - rewrite <- Eb. exact PLb.
+    - intros c' Hc'. apply (no_dup_unique pre c post AD G). apply in_or_app. right. exact Hc'. }
+  destruct (env_bindmap_alias _ _ _ _ _ Hp Hh B Hb L (alias_key_is_alias _)) as (ex & E & Ad & Tr).
+  rewrite E in Po. inversion Po; subst. rewrite Ad, Tr.
+  rewrite address_target_mk_ep by (apply (Hh b Hb)). rewrite transport_mk_ep. reflexivity.
+Qed.
+
+(* bind side *)
+Lemma bind_told tasks ps jb b pr i c :
+  configure tasks = Some ps -> nth_error tasks jb = Some b -> nth_error ps jb = Some pr ->
+  t_chans b = true -> names_ok b -> nth_error (t_in b) i = Some c -> i_target c = [] ->
+  given (i_name c) pr = Some (bound_addr c (t_alloc b i), m_bind, i_tr c).
+Proof.
+  intros H Hb Hpr C [ND PL] Hc Tg.
+  destruct (configure_task _ _ _ _ _ H Hb Hpr) as (bm & B & P).
+  destruct (given_inbound bm b pr c C ND P (nth_error_In _ _ Hc)) as (p & Pi & G). rewrite G. f_equal.
+  unfold inbound_props in Pi. rewrite Tg in Pi. cbn [is_explicit has_prefix s_tcp s_ipc orb nonempty] in Pi.
+  assert (L : assoc (i_name c) (t_local b) = Some (mk_ep c (t_alloc b i))).
+  { unfold t_local. apply local_bindmap_name; [|exact PL|exact Hc|exact Tg].
+    unfold names_of in ND. apply nodup_app_elim in ND. apply ND. }
+  rewrite L, address_bound_mk_ep, transport_mk_ep in Pi. inversion Pi. reflexivity.
+Qed.
+
+(* both sides: the peer is given the endpoint the binder is told to bind - for every inbound
+   declaration *)
+Lemma agreement tasks ps jb b prb i c jt t prt o :
+  wf_env tasks -> configure tasks = Some ps ->
+  nth_error tasks jb = Some b -> nth_error ps jb = Some prb -> t_chans b = true -> names_ok b ->
+  nth_error (t_in b) i = Some c ->
+  nth_error tasks jt = Some t -> nth_error ps jt = Some prt -> t_chans t = true -> names_ok t ->
+  In o (t_out t) -> o_target o = t_path b ++ s_colon ++ i_name c -> is_explicit (o_target o) = false ->
+  given (o_name o) prt = Some (conn_addr (t_host b) c (t_alloc b i), m_connect, i_tr c) /\
+  given (i_name c) prb = Some (bound_addr c (t_alloc b i), m_bind, i_tr c).
+Proof.
+  intros W H Hb Hpb Cb Nb Hc Ht Hpt Ct [Nt _] Ho Tg Ex.
+  destruct (connect_matches_bind_path tasks ps jt t prt b i c o W H (nth_error_In _ _ Hb) Nb Hc Ht Hpt Ct Nt Ho Tg Ex)
+    as [T G].
+  split; [exact G|]. apply (bind_told tasks ps jb b prb i c); assumption.
+Qed.
+
+(* a peer that names a channel with a target of its own fails the configuration *)
+Lemma static_inbound_not_matched tasks jt t b c o :
+  wf_env tasks -> In b tasks -> names_ok b -> In c (t_in b) -> i_target c <> [] ->
+  nth_error tasks jt = Some t -> t_chans t = true -> NoDup (names_of t) ->
+  In o (t_out t) -> o_target o = t_path b ++ s_colon ++ i_name c -> is_explicit (o_target o) = false ->
+  configure tasks = None.
+Proof.
+  intros W Hb Nb Hc T Ht C NDt Ho Tg Ex.
+  destruct (configure tasks) as [ps|] eqn:H; [|reflexivity]. exfalso.
+  destruct (In_nth_error _ _ Hc) as (i & Hi).
+  assert (L : length ps = length tasks).
+  { unfold configure in H. destruct (env_bindmap tasks); [|discriminate]. apply (all_props_length _ _ _ H). }
+  destruct (nth_error ps jt) as [pr|] eqn:Hpr.
+  - destruct (connect_matches_bind_path tasks ps jt t pr b i c o W H Hb Nb Hi Ht Hpr C NDt Ho Tg Ex) as [T0 _].
+    contradiction.
+  - apply nth_error_None in Hpr. assert (jt < length tasks)%nat by (apply nth_error_Some; congruence). lia.
+Qed.
+
+Lemma explicit_outbound tasks ps jt t pr o :
+  configure tasks = Some ps -> nth_error tasks jt = Some t -> nth_error ps jt = Some pr ->
+  t_chans t = true -> NoDup (names_of t) -> In o (t_out t) -> is_explicit (o_target o) = true ->
+  given (o_name o) pr = Some (o_target o, m_connect, o_tr o).
+Proof.
+  intros H Ht Hpr C ND Ho Ex.
+  destruct (configure_task _ _ _ _ _ H Ht Hpr) as (bm & B & P).
+  destruct (given_outbound _ _ _ _ C ND P Ho) as (p & Po & G). rewrite G.
+  unfold outbound_props in Po. rewrite Ex in Po. symmetry. exact Po.
+Qed.
+
+Lemma explicit_inbound tasks ps jt t pr c :
+  configure tasks = Some ps -> nth_error tasks jt = Some t -> nth_error ps jt = Some pr ->
+  t_chans t = true -> NoDup (names_of t) -> In c (t_in t) -> is_explicit (i_target c) = true ->
+  given (i_name c) pr = Some (i_target c, m_bind, i_tr c).
+Proof.
+  intros H Ht Hpr C ND Hc Ex.
+  destruct (configure_task _ _ _ _ _ H Ht Hpr) as (bm & B & P).
+  destruct (given_inbound bm t pr c C ND P Hc) as (p & Pi & G). rewrite G.
+  unfold inbound_props in Pi. rewrite Ex in Pi. symmetry. exact Pi.
+Qed.
+
+(* an inbound channel whose target is neither empty nor tcp:// / ipc:// fails the configuration *)
+Lemma invalid_inbound_fails tasks t c :
+  In t tasks -> t_chans t = true -> In c (t_in t) ->
+  i_target c <> [] -> is_explicit (i_target c) = false -> configure tasks = None.
+Proof.
+  intros Ht C Hc T Ex. unfold configure. destruct (env_bindmap tasks) as [bm|]; [|reflexivity].
+  apply (all_props_none bm tasks t Ht). unfold task_props. rewrite C.
+  rewrite (in_writes_none (t_local t) (t_in t) c Hc); [reflexivity|].
+  unfold inbound_props. rewrite Ex. apply nonempty_true in T. rewrite T. reflexivity.
+Qed.
+
+Lemma unmatched_fails tasks t o :
+  In t tasks -> t_chans t = true -> In o (t_out t) -> is_explicit (o_target o) = false ->
+  (forall b c, In b tasks -> In c (t_in b) -> ~ names_target b c (o_target o)) ->
+  configure tasks = None.
+Proof.
+  intros Ht C Ho Ex Hn. unfold configure. destruct (env_bindmap tasks) as [bm|] eqn:B; [|reflexivity].
+  apply (all_props_none bm tasks t Ht). unfold task_props. rewrite C.
+  rewrite (out_writes_none bm (t_out t) o Ho); [destruct (in_writes (t_local t) (t_in t)); reflexivity|].
+  unfold outbound_props. rewrite Ex.
+  unfold env_bindmap in B. rewrite (env_from_other _ _ _ (o_target o) B); [reflexivity|].
+  intros b Hb Wk. destruct (writes_key_names _ _ Wk) as (c & Hc & Nt). apply (Hn b c Hb Hc Nt).
+Qed.
+
+(* an alias claimed by two tasks is rejected unless both stand for one and the same IPC endpoint *)
+Lemma alias_two_tasks_rejected tasks j1 j2 b1 b2 k e1 e2 :
+  (forall x, In x tasks -> path_ok (t_path x)) -> (forall x, In x tasks -> host_ok (t_host x)) ->
+  nth_error tasks j1 = Some b1 -> nth_error tasks j2 = Some b2 -> j1 <> j2 ->
+  is_alias_key k = true -> In (k, e1) (t_local b1) -> In (k, e2) (t_local b2) ->
+  ~ (exists p tr, e1 = Ipc p tr /\ e2 = Ipc p tr) ->
+  configure tasks = None.
+Proof.
+  intros Hp Hh H1 H2 Ne A I1 I2 Nx. unfold configure.
+  destruct (env_bindmap tasks) as [bm|] eqn:B; [|reflexivity]. exfalso. apply Nx.
+  destruct (Nat.lt_total j1 j2) as [Lt|[Eq|Gt]]; [|contradiction|].
+  - destruct (nth_error_two _ _ _ _ _ H1 H2 Lt) as (pre & mid & post & E). subst tasks.
+    apply (env_from_alias_two pre b1 mid b2 post bm k e1 e2 Hp Hh B A I1 I2).
+  - destruct (nth_error_two _ _ _ _ _ H2 H1 Gt) as (pre & mid & post & E). subst tasks.
+    destruct (env_from_alias_two pre b2 mid b1 post bm k e2 e1 Hp Hh B A I2 I1) as (p & tr & X & Y).
+    exists p, tr. split; assumption.
+Qed.
+
+(* an alias declared by two channels of one task is rejected *)
+Lemma alias_same_task_rejected tasks b i1 i2 c1 c2 :
+  In b tasks -> nth_error (t_in b) i1 = Some c1 -> nth_error (t_in b) i2 = Some c2 -> i1 <> i2 ->
+  i_global c1 <> [] -> i_global c2 = i_global c1 -> configure tasks = None.
+Proof.
+  intros Hb H1 H2 Ne G E. unfold configure, env_bindmap.
+  rewrite (env_from_dup_none tasks [] b Hb (dup_two _ _ _ _ _ H1 H2 Ne G E)). reflexivity.
+Qed.
+
+(* any two distinct claims of one alias (by channels that take part in matching) whose endpoints
+   differ are rejected *)
+Lemma alias_conflict_rejected tasks j1 j2 b1 b2 i1 i2 c1 c2 :
+  (forall x, In x tasks -> path_ok (t_path x)) -> (forall x, In x tasks -> host_ok (t_host x)) ->
+  (forall x c, In x tasks -> In c (t_in x) -> is_alias_key (i_name c) = false) ->
+  nth_error tasks j1 = Some b1 -> nth_error tasks j2 = Some b2 ->
+  nth_error (t_in b1) i1 = Some c1 -> nth_error (t_in b2) i2 = Some c2 ->
+  (j1, i1) <> (j2, i2) -> i_global c1 <> [] -> i_global c2 = i_global c1 ->
+  i_target c1 = [] -> i_target c2 = [] ->
+  to_target (t_host b1) (mk_ep c1 (t_alloc b1 i1)) <> to_target (t_host b2) (mk_ep c2 (t_alloc b2 i2)) ->
+  configure tasks = None.
+Proof.
+  intros Hp Hh PL H1 H2 N1 N2 Ne G E T1 T2 D.
+  destruct (Nat.eq_dec j1 j2) as [Ej|Nj].
+  - subst j2. assert (b2 = b1) by congruence. subst b2.
+    apply (alias_same_task_rejected tasks b1 i1 i2 c1 c2 (nth_error_In _ _ H1) N1 N2); try assumption.
+    intro X. apply Ne. congruence.
+  - destruct (configure tasks) as [ps|] eqn:Cf; [|reflexivity]. exfalso.
+    assert (B : exists bm, env_bindmap tasks = Some bm).
+    { unfold configure in Cf. destruct (env_bindmap tasks) as [bm|]; [exists bm; reflexivity|discriminate]. }
+    destruct B as (bm & B).
+    assert (G2 : i_global c2 <> []) by congruence.
+    assert (L : forall b i c, In b tasks -> nth_error (t_in b) i = Some c -> i_global c <> [] -> i_target c = [] ->
+                              In (alias_key (i_global c), mk_ep c (t_alloc b i)) (t_local b)).
+    { intros b i c Hb Hc Gc Tc. destruct (nth_error_split _ _ _ Hc) as (pre & post & Eb & Li).
+      pose proof (env_from_no_dup _ _ _ _ B Hb) as AD. rewrite Eb in AD.
+      apply local_In_assoc. unfold t_local. rewrite Eb, <- Li. apply local_bindmap_alias; try assumption.
+      - rewrite <- Eb. intros c' Hc'. apply (PL b c' Hb Hc').
+      - intros c' Hc'. apply (no_dup_unique pre c post AD Gc). apply in_or_app. right. exact Hc'. }
+    pose proof (L b1 i1 c1 (nth_error_In _ _ H1) N1 G T1) as L1.
+    pose proof (L b2 i2 c2 (nth_error_In _ _ H2) N2 G2 T2) as L2. rewrite E in L2.
+    assert (X : configure tasks = None).
+    { apply (alias_two_tasks_rejected tasks j1 j2 b1 b2 _ _ _ Hp Hh H1 H2 Nj (alias_key_is_alias _) L1 L2).
+      intros (p & tr & X1 & X2). apply D. rewrite X1, X2. reflexivity. }
+    congruence.
+Qed.
+
+(* ---------- witnesses (the former defects, now regression cases of the model) ---------- *)
+Definition s_default : str := [100;101;102;97;117;108;116].
+Definition s_in0 : str := [105;110;48].
+Definition s_in1 : str := [105;110;49].
+Definition s_out0 : str := [111;117;116;48].
+Definition s_h1 : str := [104;49].
+Definition s_h2 : str := [104;50].
+Definition s_ga : str := [103;97].
+Definition wit1_c : inbound := mkIn s_in0 s_default [116;99;112;58;47;47;42;58;53;53;53;53] [] false.
+Definition wit1_o : outbound := mkOut s_out0 s_default [119;46;98;58;105;110;48].
+Definition wit1_wb : wtask := mkW [[119];[98]] [[wit1_c]; []] [[]; []] true [] [] s_h1 [(9000, [])].
+Definition wit1_wt : wtask := mkW [[119];[99]] [[]; []] [[wit1_o]; []] true [] [] s_h2 [].
+Definition wit1_ws : list wtask := [wit1_wb; wit1_wt].
+Definition wit1_tasks : list task := map task_of wit1_ws.
+Lemma wit1_wf : wf_env wit1_tasks.
+Proof.
+  split.
+  - cbn. constructor; [intros [H|[]]; discriminate|]. constructor; [intros []|constructor].
+  - intros t [<-|[<-|[]]]; cbn; (split; [discriminate|]); (split; [|split; discriminate]);
+      unfold no_colon; cbn; intuition discriminate.
+Qed.
+Lemma wit_names_ok w : nodupb str_eqb (names_of (task_of w)) = true ->
+  forallb (fun i => negb (is_alias_key (i_name i))) (t_in (task_of w)) = true -> names_ok (task_of w).
+Proof.
+  intros H1 H2. split.
+  - revert H1. generalize (names_of (task_of w)). induction l as [|x l IH]; cbn; intro H; [constructor|].
+    apply andb_true_iff in H. destruct H as [Hx Hl]. constructor; [|apply IH, Hl].
+    intro HI. apply negb_true_iff in Hx. assert (existsb (str_eqb x) l = true); [|congruence].
+    apply existsb_exists. exists x. split; [exact HI|apply str_eqb_refl].
+  - intros i Hi. rewrite forallb_forall in H2. apply negb_true_iff. apply H2, Hi.
+Qed.
+
+(* the peer names a channel that is told its own explicit target: refused *)
+Lemma wit1_refused : configure wit1_tasks = None.
+Proof. vm_compute. reflexivity. Qed.
+
+(* a declaration the device interface refuses: refused *)
+Definition wit2_c : inbound := mkIn s_in0 s_default [110;111;110;115;101;110;115;101] [] false.
+Definition wit2_ws : list wtask :=
+  [ mkW [[119];[98]] [[wit2_c]; []] [[]; []] true [] [] s_h1 [(9000, [])];
+    mkW [[119];[99]] [[]; []] [[wit1_o]; []] true [] [] s_h2 [] ].
+
+Lemma wit2_refused : configure_wf wit2_ws = None.
+Proof. vm_compute. reflexivity. Qed.
+
+(* one task, two channels with one alias: refused *)
+Definition wit3_c1 : inbound := mkIn s_in0 s_default [] s_ga false.
+Definition wit3_c2 : inbound := mkIn s_in1 s_default [] s_ga true.
+Definition wit3_w : wtask :=
+  mkW [[119];[98]] [[wit3_c1; wit3_c2]; []] [[]; []] true [] [] s_h1 [(9000, []); (0, [64;112])].
+Definition wit3_ws : list wtask := [wit3_w].
+
+Lemma wit3_refused : configure_wf wit3_ws = None.
+Proof. vm_compute. reflexivity. Qed.
+
+(* the two addresses name one endpoint: same port on the binder's host, or the same path *)
+Lemma conn_bound_same_endpoint h c a :
+  (i_ipc c = false -> conn_addr h c a = s_tcp ++ h ++ s_colon ++ dec (fst a) /\
+                      bound_addr c a = s_tcp ++ s_star ++ s_colon ++ dec (fst a)) /\
+  (i_ipc c = true -> conn_addr h c a = s_ipc ++ snd a /\ bound_addr c a = s_ipc ++ snd a).
+Proof. unfold conn_addr, bound_addr. split; intros ->; split; reflexivity. Qed.
+
+(* ====================================================================================== *)
+(* converse: a configuration is refused only for the reasons the property names            *)
+(* ====================================================================================== *)
+Lemma all_props_none_inv : forall bm tasks,
+  all_props bm tasks = None -> exists t, In t tasks /\ task_props bm t = None.
+Proof.
+  induction tasks as [|t r IH]; intro H; cbn [all_props] in H; [discriminate|].
+  destruct (task_props bm t) as [p|] eqn:P.
+  - destruct (all_props bm r) as [ps|] eqn:A; [discriminate|].
+    destruct (IH eq_refl) as (t' & Ht' & P'). exists t'. split; [right; exact Ht'|exact P'].
+  - exists t. split; [left; reflexivity|exact P].
+Qed.
+
+Lemma out_writes_none_inv : forall bm outs,
+  out_writes bm outs = None -> exists o, In o outs /\ outbound_props bm o = None.
+Proof.
+  induction outs as [|o r IH]; intro H; cbn [out_writes] in H; [discriminate|].
+  destruct (outbound_props bm o) as [p|] eqn:P.
+  - destruct (out_writes bm r) as [w|] eqn:W; [discriminate|].
+    destruct (IH eq_refl) as (o' & Ho' & P'). exists o'. split; [right; exact Ho'|exact P'].
+  - exists o. split; [left; reflexivity|exact P].
+Qed.
+
 Lemma env_add_none : forall entries path host bm,
   path_ok path -> NoDup (map fst entries) -> env_add path host entries bm = None ->
   exists k ep, In (k, ep) entries /\ is_alias_key k = true /\ assoc k bm <> None.
@@ -1505,11 +1600,13 @@ Definition alias_prov (bm : bindmap) (done : list task) : Prop :=
 
 Lemma env_from_none : forall rest done bm,
   (forall t, In t rest -> path_ok (t_path t)) -> alias_prov bm done -> env_from rest bm = None ->
+  (exists t, In t rest /\ alias_dup (t_in t) = true) \/
   exists j1 j2 b1 b2 k e1 e2,
     (j1 < j2)%nat /\ nth_error (done ++ rest) j1 = Some b1 /\ nth_error (done ++ rest) j2 = Some b2 /\
     is_alias_key k = true /\ In (k, e1) (t_local b1) /\ In (k, e2) (t_local b2).
 Proof.
   induction rest as [|t r IH]; intros done bm Hp Pv H; cbn [env_from] in H; [discriminate|].
+  destruct (alias_dup (t_in t)) eqn:AD; [left; exists t; split; [left; reflexivity|exact AD]|].
   destruct (env_add (t_path t) (t_host t) (t_local t) bm) as [bm1|] eqn:E.
   - assert (Pv1 : alias_prov bm1 (done ++ [t])).
     { intros k A P. destruct (assoc k bm1) as [ex|] eqn:X; [|congruence].
@@ -1523,10 +1620,11 @@ Proof.
           * rewrite bind_key_path in Bk by exact An. rewrite <- Bk in A.
             rewrite path_key_not_alias in A by (apply Hp; left; reflexivity). discriminate. }
     destruct (IH (done ++ [t]) bm1 (fun x Hx => Hp x (or_intror Hx)) Pv1 H)
-      as (j1 & j2 & b1 & b2 & k & e1 & e2 & Lt & N1 & N2 & R).
-    exists j1, j2, b1, b2, k, e1, e2. rewrite <- app_assoc in N1, N2. cbn [app] in N1, N2.
-    split; [exact Lt|]. split; [exact N1|]. split; [exact N2|exact R].
-  - destruct (env_add_none _ _ _ _ (Hp t (or_introl eq_refl)) (local_bindmap_nodup _ _) E) as (k & ep & Hi & A & P).
+      as [(t' & Ht' & AD')|(j1 & j2 & b1 & b2 & k & e1 & e2 & Lt & N1 & N2 & R)].
+    + left. exists t'. split; [right; exact Ht'|exact AD'].
+    + right. exists j1, j2, b1, b2, k, e1, e2. rewrite <- app_assoc in N1, N2. cbn [app] in N1, N2.
+      split; [exact Lt|]. split; [exact N1|]. split; [exact N2|exact R].
+  - right. destruct (env_add_none _ _ _ _ (Hp t (or_introl eq_refl)) (local_bindmap_nodup _ _) E) as (k & ep & Hi & A & P).
     destruct (Pv k A P) as (j & b & e & Hj & He).
     assert (Lj : (j < length done)%nat) by (apply nth_error_Some; congruence).
     exists j, (length done), b, t, k, e, ep. split; [exact Lj|]. split.
@@ -1539,18 +1637,30 @@ Lemma fails_only_for_cause tasks :
   (forall t, In t tasks -> path_ok (t_path t)) -> configure tasks = None ->
   (exists t o, In t tasks /\ t_chans t = true /\ In o (t_out t) /\ is_explicit (o_target o) = false /\
                forall b c, In b tasks -> In c (t_in b) -> ~ names_target b c (o_target o)) \/
+  (exists t c, In t tasks /\ t_chans t = true /\ In c (t_in t) /\
+               i_target c <> [] /\ is_explicit (i_target c) = false) \/
+  (exists t, In t tasks /\ alias_dup (t_in t) = true) \/
   (exists j1 j2 b1 b2 k e1 e2, (j1 < j2)%nat /\ nth_error tasks j1 = Some b1 /\ nth_error tasks j2 = Some b2 /\
                is_alias_key k = true /\ In (k, e1) (t_local b1) /\ In (k, e2) (t_local b2)).
 Proof.
   intros Hp H. unfold configure in H. destruct (env_bindmap tasks) as [bm|] eqn:B.
-  - left. destruct (all_props_none_inv _ _ H) as (t & Ht & P). unfold task_props in P.
+  - destruct (all_props_none_inv _ _ H) as (t & Ht & P). unfold task_props in P.
     destruct (t_chans t) eqn:C; [|discriminate].
-    destruct (out_writes bm (t_out t)) as [w|] eqn:W; [discriminate|].
-    destruct (out_writes_none_inv _ _ W) as (o & Ho & Po). unfold outbound_props in Po.
-    destruct (is_explicit (o_target o)) eqn:Ex; [discriminate|].
-    destruct (assoc (o_target o) bm) as [ep|] eqn:As; [discriminate|].
-    exists t, o. repeat (split; [assumption|]). intros b c Hb Hc Nt.
-    apply (env_from_written tasks [] bm b (o_target o) Hb (names_target_writes _ _ _ Hc Nt) B). exact As.
-  - right. apply (env_from_none tasks [] [] Hp); [|exact B].
+    destruct (in_writes (t_local t) (t_in t)) as [wi|] eqn:Wi.
+    + left. destruct (out_writes bm (t_out t)) as [w|] eqn:W; [discriminate|].
+      destruct (out_writes_none_inv _ _ W) as (o & Ho & Po). unfold outbound_props in Po.
+      destruct (is_explicit (o_target o)) eqn:Ex; [discriminate|].
+      destruct (assoc (o_target o) bm) as [ep|] eqn:As; [discriminate|].
+      exists t, o. repeat (split; [assumption|]). intros b c Hb Hc Nt.
+      apply (env_from_written tasks [] bm b (o_target o) Hb (names_target_writes _ _ _ Hc Nt) B). exact As.
+    + right. left. destruct (in_writes_none_inv _ _ Wi) as (c & Hc & Pc). unfold inbound_props in Pc.
+      destruct (is_explicit (i_target c)) eqn:Ex; [discriminate|].
+      destruct (nonempty (i_target c)) eqn:Ne.
+      * exists t, c. repeat (split; [assumption|]). split; [apply nonempty_true, Ne|exact Ex].
+      * exfalso. apply nonempty_false in Ne.
+        destruct (assoc (i_name c) (t_local t)) as [ep|] eqn:L; [discriminate|].
+        revert L. unfold t_local, local_bindmap. apply local_from_present.
+        right. exists c. split; [exact Hc|]. split; [exact Ne|]. left. reflexivity.
+  - right. right. destruct (env_from_none tasks [] [] Hp) as [X|X]; [|exact B|left; exact X|right; exact X].
     intros k _ P. exfalso. apply P. reflexivity.
 Qed.
